@@ -57,7 +57,7 @@ pub struct Snapshot {
     escrow: [u64; 4],
 }
 
-const NSLOT: usize = 9;
+const NSLOT: usize = 12;
 const NPOS: usize = 3;
 
 #[derive(Clone)]
@@ -84,6 +84,8 @@ pub struct Slot {
     unreachable_price: bool,
     /// a shift of `collateral` market tokens from market `market` into the other market instead of an order
     shift: bool,
+    /// a market swap order of `collateral` units: 1 = A -> B in market `market`; 2 = B -> A in the other market, then A -> B in `market`
+    swap: u8,
     nonce: [u8; 32],
 }
 
@@ -97,11 +99,16 @@ pub struct Perp {
 }
 
 /// (A min, A max), (B min, B max)
-const PRICES: [((u128, u128), (u128, u128)); 4] = [
+const PRICES: [((u128, u128), (u128, u128)); 6] = [
     ((12_0000_0000, 12_0000_0000), (1_0000_0000, 1_0000_0000)),
     ((12_9000_0000, 13_1000_0000), (9990_0000, 1_0010_0000)),
-    ((8_0000_0000, 8_1000_0000), (1_0000_0000, 1_0000_0000)),
-    ((16_0000_0000, 16_2000_0000), (1_0000_0000, 1_0000_0000)),
+    // the first trader's long (300 USD on 120 USD of collateral, opened at 12) is left with about 1 USD: liquidatable, still solvent
+    ((7_2500_0000, 7_3000_0000), (1_0000_0000, 1_0000_0000)),
+    // the second trader's short (400 USD on 10 A of collateral) is left with about 2 USD
+    ((17_0000_0000, 17_0500_0000), (1_0000_0000, 1_0000_0000)),
+    // both far under water (insolvent liquidations)
+    ((6_0000_0000, 6_1000_0000), (1_0000_0000, 1_0000_0000)),
+    ((20_0000_0000, 20_2000_0000), (1_0000_0000, 1_0000_0000)),
 ];
 
 const UNIT: u128 = 100_000_000_000_000_000_000;
@@ -137,6 +144,11 @@ impl Perp {
             Who::Keeper => self.w.keeper,
             Who::Stranger => self.w.stranger,
         }
+    }
+    /// (markets of the path, token in, token out) of a swap slot
+    fn swap_route(&self, s: &Slot) -> (Vec<&MarketKeys>, Pubkey, Pubkey) {
+        let (m, o) = (self.markets()[s.market], self.markets()[1 - s.market]);
+        if s.swap == 1 { (vec![m], self.w.a, self.w.b) } else { (vec![o, m], self.w.b, self.w.b) }
     }
     fn order_account(&self, s: &Slot) -> Pubkey {
         if s.shift { self.w.shift_pda(&s.owner, &s.nonce) } else { self.w.order_pda(&s.owner, &s.nonce) }
@@ -249,11 +261,14 @@ impl Machine for Perp {
                 let sl = &self.slots[i];
                 let m = self.markets()[sl.market];
                 // the position account is prepared by the client before the first increase
-                if sl.increase && !n.db.exists(&w.position_pda(&sl.owner, m, sl.side)) {
+                if sl.increase && sl.swap == 0 && !sl.shift && !n.db.exists(&w.position_pda(&sl.owner, m, sl.side)) {
                     let _ = w.prepare_position(&mut n.db, m, sl.owner, sl.side);
                 }
                 let unreachable = sl.unreachable_price.then_some(if sl.side.is_long == sl.increase { 1u128 } else { u128::MAX / 4 });
-                let r = if sl.shift {
+                let r = if sl.swap != 0 {
+                    let (path, tin, tout) = self.swap_route(sl);
+                    w.create_swap(&mut n.db, &path, sl.owner, sl.nonce, tin, tout, sl.collateral, if sl.unreachable_price { u128::MAX } else { 0 })
+                } else if sl.shift {
                     w.create_shift(&mut n.db, m, self.markets()[1 - sl.market], sl.owner, sl.nonce, sl.collateral, if sl.unreachable_price { u64::MAX } else { 0 })
                 } else if sl.increase {
                     w.create_increase_with(&mut n.db, m, sl.owner, sl.receiver, sl.nonce, sl.side, sl.collateral, sl.size, unreachable)
@@ -269,7 +284,10 @@ impl Machine for Perp {
                 let sl = &self.slots[i];
                 let m = self.markets()[sl.market];
                 let by = self.key_of(sl.owner, who);
-                Some(if sl.shift {
+                Some(if sl.swap != 0 {
+                    let (path, tin, tout) = self.swap_route(sl);
+                    w.execute_swap(&mut n.db, &path, sl.owner, sl.nonce, tin, tout, by, false)
+                } else if sl.shift {
                     w.execute_shift(&mut n.db, m, self.markets()[1 - sl.market], sl.owner, sl.nonce, by, false)
                 } else if sl.increase {
                     w.execute_increase(&mut n.db, m, sl.owner, sl.nonce, sl.side, by, false)
@@ -281,7 +299,10 @@ impl Machine for Perp {
                 let sl = &self.slots[i];
                 let m = self.markets()[sl.market];
                 let by = self.key_of(sl.owner, who);
-                Some(if sl.shift { w.close_shift(&mut n.db, m, self.markets()[1 - sl.market], sl.owner, sl.nonce, by) } else { w.close_order(&mut n.db, m, sl.owner, sl.receiver, sl.nonce, sl.side, sl.increase, by) })
+                Some(if sl.swap != 0 {
+                    let (_, tin, tout) = self.swap_route(sl);
+                    w.close_swap(&mut n.db, sl.owner, sl.nonce, tin, tout, by)
+                } else if sl.shift { w.close_shift(&mut n.db, m, self.markets()[1 - sl.market], sl.owner, sl.nonce, by) } else { w.close_order(&mut n.db, m, sl.owner, sl.receiver, sl.nonce, sl.side, sl.increase, by) })
             }
             Act::Price(k) => {
                 n.price = k;
@@ -418,7 +439,7 @@ impl Machine for Perp {
                         if matches!(s.phase[i], Phase::Pending | Phase::Cancelled) && esc != s.snap[i].escrow {
                             out.fail("C23/escrow_not_returned", format!("{a:?} ({:?}): escrow at close {esc:?}, at creation {:?}", s.phase[i], s.snap[i].escrow));
                         }
-                        if s.phase[i] == Phase::Completed && (sl.increase || sl.shift) && esc != [0; 4] && s.snap[i].escrow == esc {
+                        if s.phase[i] == Phase::Completed && (sl.increase || sl.shift) && sl.swap != 2 && esc != [0; 4] && s.snap[i].escrow == esc {
                             out.fail("C23/completed_action_escrow_wrong", format!("{a:?}: a completed increase still holds its collateral {esc:?}"));
                         }
                         let action_lamports = s.db.get(&self.order_account(sl)).lamports;
@@ -461,20 +482,24 @@ pub fn build(props: u32, th: bool) -> (Perp, St) {
     let short_a = Side { is_long: false, collateral_long: true };
     let positions = vec![(w.user, 0, long_b), (w.user2, 0, short_a), (w.user, 1, long_b)];
     let slots = vec![
-        Slot { owner: w.user, receiver: w.user, market: 0, side: long_b, increase: true, collateral: 120_000_000, size: 300 * UNIT, unreachable_price: false, shift: false, nonce: [0x11; 32] },
-        Slot { owner: w.user, receiver: w.user, market: 0, side: long_b, increase: false, collateral: 0, size: 300 * UNIT, unreachable_price: false, shift: false, nonce: [0x12; 32] },
-        Slot { owner: w.user2, receiver: w.user2, market: 0, side: short_a, increase: true, collateral: 10_000_000, size: 400 * UNIT, unreachable_price: false, shift: false, nonce: [0x13; 32] },
-        Slot { owner: w.user, receiver: w.stranger, market: 0, side: long_b, increase: false, collateral: 10_000_000, size: 100 * UNIT, unreachable_price: false, shift: false, nonce: [0x14; 32] },
-        Slot { owner: w.user, receiver: w.stranger, market: 0, side: long_b, increase: true, collateral: 50_000_000, size: 100 * UNIT, unreachable_price: true, shift: false, nonce: [0x15; 32] },
-        Slot { owner: w.user2, receiver: w.user2, market: 0, side: short_a, increase: false, collateral: 0, size: 400 * UNIT, unreachable_price: false, shift: false, nonce: [0x16; 32] },
-        Slot { owner: w.user, receiver: w.user, market: 1, side: long_b, increase: true, collateral: 60_000_000, size: 200 * UNIT, unreachable_price: false, shift: false, nonce: [0x17; 32] },
+        Slot { owner: w.user, receiver: w.user, market: 0, side: long_b, increase: true, collateral: 120_000_000, size: 300 * UNIT, unreachable_price: false, shift: false, swap: 0, nonce: [0x11; 32] },
+        Slot { owner: w.user, receiver: w.user, market: 0, side: long_b, increase: false, collateral: 0, size: 300 * UNIT, unreachable_price: false, shift: false, swap: 0, nonce: [0x12; 32] },
+        Slot { owner: w.user2, receiver: w.user2, market: 0, side: short_a, increase: true, collateral: 10_000_000, size: 400 * UNIT, unreachable_price: false, shift: false, swap: 0, nonce: [0x13; 32] },
+        Slot { owner: w.user, receiver: w.stranger, market: 0, side: long_b, increase: false, collateral: 10_000_000, size: 100 * UNIT, unreachable_price: false, shift: false, swap: 0, nonce: [0x14; 32] },
+        Slot { owner: w.user, receiver: w.stranger, market: 0, side: long_b, increase: true, collateral: 50_000_000, size: 100 * UNIT, unreachable_price: true, shift: false, swap: 0, nonce: [0x15; 32] },
+        Slot { owner: w.user2, receiver: w.user2, market: 0, side: short_a, increase: false, collateral: 0, size: 400 * UNIT, unreachable_price: false, shift: false, swap: 0, nonce: [0x16; 32] },
+        Slot { owner: w.user, receiver: w.user, market: 1, side: long_b, increase: true, collateral: 60_000_000, size: 200 * UNIT, unreachable_price: false, shift: false, swap: 0, nonce: [0x17; 32] },
         // shifts of the liquidity provider's market tokens between the two markets (one with an unreachable minimum)
-        Slot { owner: w.user2, receiver: w.user2, market: 0, side: long_b, increase: false, collateral: 900_000_000_000, size: 0, unreachable_price: false, shift: true, nonce: [0x18; 32] },
-        Slot { owner: w.user2, receiver: w.user2, market: 1, side: long_b, increase: false, collateral: 500_000_000_000, size: 0, unreachable_price: true, shift: true, nonce: [0x19; 32] },
+        Slot { owner: w.user2, receiver: w.user2, market: 0, side: long_b, increase: false, collateral: 900_000_000_000, size: 0, unreachable_price: false, shift: true, swap: 0, nonce: [0x18; 32] },
+        Slot { owner: w.user2, receiver: w.user2, market: 1, side: long_b, increase: false, collateral: 500_000_000_000, size: 0, unreachable_price: true, shift: true, swap: 0, nonce: [0x19; 32] },
+        // market swap orders: one hop, two hops through both markets, one with an unreachable minimum output
+        Slot { owner: w.user, receiver: w.user, market: 0, side: long_b, increase: true, collateral: 5_000_000, size: 0, unreachable_price: false, shift: false, swap: 1, nonce: [0x1a; 32] },
+        Slot { owner: w.user, receiver: w.user, market: 1, side: long_b, increase: true, collateral: 40_000_000, size: 0, unreachable_price: false, shift: false, swap: 2, nonce: [0x1b; 32] },
+        Slot { owner: w.user2, receiver: w.user2, market: 1, side: long_b, increase: true, collateral: 3_000_000, size: 0, unreachable_price: true, shift: false, swap: 1, nonce: [0x1c; 32] },
     ];
     let order_slots = if th { 7 } else { 5 };
     let mut acts = vec![];
-    let used: Vec<usize> = (0..order_slots).chain([7usize, 8]).collect();
+    let used: Vec<usize> = (0..order_slots).chain(if th { vec![7usize, 8, 9, 10, 11] } else { vec![7usize, 8, 9, 11] }).collect();
     for i in used {
         acts.extend([Act::Create(i), Act::Exec(i, Who::Keeper), Act::Close(i, Who::Owner)]);
         if props & P23 != 0 {
@@ -483,7 +508,7 @@ pub fn build(props: u32, th: bool) -> (Perp, St) {
     }
     acts.extend([Act::Price(1), Act::Price(2), Act::Price(3), Act::Adv(3_600)]);
     if th {
-        acts.extend([Act::Price(0), Act::Adv(30), Act::Adv(100_000)]);
+        acts.extend([Act::Price(0), Act::Price(4), Act::Price(5), Act::Adv(30), Act::Adv(100_000)]);
     }
     acts.extend([Act::Liquidate(0, Who::Keeper), Act::Liquidate(1, Who::Keeper)]);
     if props & P23 != 0 {
@@ -500,12 +525,22 @@ pub fn build(props: u32, th: bool) -> (Perp, St) {
 pub fn run_section(rep: &mut Report, cli: &Cli, props: u32) {
     let th = cli.tier.thorough();
     let (m, start) = build(props, th);
+    // a second start state in which both traders' positions are already open (orders executed and closed)
+    let mut opened = start.clone();
+    for i in [0usize, 2] {
+        for a in [Act::Create(i), Act::Exec(i, Who::Keeper), Act::Close(i, Who::Owner)] {
+            let mut out = StepOut::default();
+            opened = m.step(&opened, &a, &mut out);
+            assert!(out.violations.is_empty() && out.label == "ok", "perp start state: {a:?}: {} {:?}", out.label, out.violations);
+        }
+    }
+    let starts = vec![start, opened];
     if let Some(rv) = &cli.replay {
-        e2::replay_into(rep, &m, &[start], rv);
+        e2::replay_into(rep, &m, &starts, rv);
         return;
     }
-    let depth = if th { 6 } else { 5 };
-    let o = e2::explore(rep, "position-order histories over two markets", &m, vec![start], &e2::Config { depth, max_states: 6_000_000 }, json!({"machine": "perp", "thorough": th}));
+    let depth = if th { 6 } else { 4 };
+    let o = e2::explore(rep, "position-order histories over two markets", &m, starts, &e2::Config { depth, max_states: 6_000_000 }, json!({"machine": "perp", "thorough": th}));
     let mut needed = vec!["Create:ok", "Exec:ok", "Exec:err", "Close:ok", "Liquidate:ok", "Liquidate:err"];
     if props & P23 != 0 {
         needed.push("Close:err");
